@@ -3,12 +3,12 @@ NOT_APPLICABLE = {}
 TEXT = {
     "C01": {
         "technique": "property-based testing (rapid): generated batches x chunk modes vs. an independent reference model, both directions",
-        "level_text": "Exploration: thousands of generated batches per run (small, 128-document-block and >1024-document families; every fixed chunk size that makes few-document lists multi-chunk, plus the adaptive mode) are built with New and every field's full dictionary and every posting (frequency, bit-exact norm, locations with field names, order) is compared with a model computed from the batch alone; extra terms/postings fail as well as missing ones. Sampling, not proof.",
+        "level_text": "Exploration: thousands of generated batches per run (small, 128-document-block and >1024-document families; every fixed chunk size that makes few-document lists multi-chunk, plus the adaptive mode) are built with New and every field's full dictionary and every posting (frequency, bit-exact norm, locations with field names, order) is compared with a model computed from the batch alone; extra terms/postings fail as well as missing ones. Sampling, not proof. Families: small (<=8 docs over 6 field names incl. one sorting before _id), mid (<=28 docs around one posting list), 128-document blocks (incl. exact multiples of 128), >1024 documents (repeated field instances, exact multiples of 1024 postings, sparse doc-value fields), 130-300 field names (two-byte field ids), >65535 documents (several roaring containers); the segment is re-observed after later builds.",
         "level_note": "Trusts the reference model in harness/model.go and the input contract stated in the property; chunk modes other than the adaptive one are reached through the verif-tagged export.",
     },
     "C02": {
         "technique": "property-based testing (rapid): generated merge trees vs. reference model of the survivors and a literal rebuild with New",
-        "level_text": "Exploration: generated trees of merges (1-3 inputs per merge, inputs built/loaded/previously merged with differing field sets and chunk modes, drops nil/empty/partial/everything, drawn output chunk mode, small/128-block/>1024-document families) are observed through every read API except statistics and compared with the model of the survivors; whenever the survivors form a contract-valid batch the merged segment is also compared with a literal rebuild by New. Vanished terms are probed through Contains/PostingsList. Sampling, not proof.",
+        "level_text": "Exploration: generated trees of merges (1-3 inputs per merge, inputs built/loaded/previously merged with differing field sets and chunk modes, drops nil/empty/partial/everything, drawn output chunk mode, small/128-block/>1024-document families) are observed through every read API except statistics and compared with the model of the survivors; whenever the survivors form a contract-valid batch the merged segment is also compared with a literal rebuild by New. Vanished terms are probed through Contains/PostingsList. Sampling, not proof. Same six size/shape families as C01.",
         "level_note": "Trusts the reference model; statistics are excluded here (C16/C17 own them); doc-value comparison with the literal rebuild is skipped when the scenario mixes the doc-value flag per field instance (the model comparison still applies).",
     },
     "C03": {
@@ -28,7 +28,7 @@ TEXT = {
     },
     "C05": {
         "technique": "model-based property testing (rapid): generated Next/Advance histories over generated posting lists, exclusions and flags vs. a filtered list + cursor model",
-        "level_text": "Exploration: each case draws a posting list (fixed chunk sizes 1..7 over few documents, adaptive multi-chunk over >1024 documents, 1-hit terms of merged segments, absent terms), an exclusion bitmap of five classes, the three flags, optionally ReplaceActual(subset), and a history of up to 25 Next/Advance calls with targets placed relative to the cursor and chunk boundaries; after every call the returned posting (number; frequency/norm when any flag is set; locations when requested) must equal the model's, nil must stay nil, Count() must equal the non-excluded postings.",
+        "level_text": "Exploration: each case draws a posting list (fixed chunk sizes 1..7 over few documents, adaptive multi-chunk over >1024 documents, 1-hit terms of merged segments, absent terms), an exclusion bitmap of five classes, the three flags, optionally ReplaceActual(subset), and a history of up to 25 Next/Advance calls with targets placed relative to the cursor and chunk boundaries; after every call the returned posting (number; frequency/norm when any flag is set; locations when requested) must equal the model's, nil must stay nil, Count() must equal the non-excluded postings. A >65535-document family adds Advance targets around the roaring container boundary.",
         "level_note": "Trusts the model list (validated against New by C01) and the API contract on Advance targets.",
     },
     "C08": {
@@ -48,7 +48,7 @@ TEXT = {
     },
     "C16": {
         "technique": "property-based testing (rapid): CollectionStats of generated built/loaded/merged segments vs. counts computed from the model; algebraic check of Merge",
-        "level_text": "Exploration: generated batches with length == sum of frequencies (incl. term-less field instances), built, loaded and merged through trees with deletions; TotalDocumentCount, DocumentCount and SumTotalTermFrequency must equal the model's numbers for every field, be zero for unknown fields, and CollectionStats.Merge must add component-wise incl. self-merge.",
+        "level_text": "Exploration: generated batches with length == sum of frequencies (incl. term-less field instances), built, loaded and merged through trees with deletions; TotalDocumentCount, DocumentCount and SumTotalTermFrequency must equal the model's numbers for every field, be zero for unknown fields, and CollectionStats.Merge must add component-wise incl. self-merge. The statistics of a built segment are read again after a later build.",
         "level_note": "Trusts the model's two definitions (built: documents carrying the field / sum of lengths; merged: survivors with >=1 term / sum of surviving frequencies), which are the property's.",
     },
     "C17": {
@@ -68,7 +68,7 @@ TEXT = {
     },
     "C12": {
         "technique": "fault injection enumerated exhaustively inside generated cases: failing writer at every byte offset, close channel at every byte",
-        "level_text": "Fault enumeration: for each generated persist/merge workload (several buffer sizes) every byte offset at which the destination writer starts failing is injected into Segment.WriteTo and Merger.WriteTo (must return a non-nil error), and the close channel is closed at every byte of the output (result must be ErrClosed or nil together with the complete, byte-identical file and the right byte count). About 10^5 injected faults per quick run.",
+        "level_text": "Fault enumeration: for each generated persist/merge workload (several buffer sizes) every byte offset at which the destination writer starts failing is injected into Segment.WriteTo and Merger.WriteTo (must return a non-nil error), and the close channel is closed at every byte of the output (result must be ErrClosed or nil together with the complete, byte-identical file and the right byte count). About 10^5 injected faults per quick run. Both a writer that fails forever from byte k on and one whose single Write call crossing byte k fails are injected.",
         "level_note": "Offsets are exhaustive for files <= 8 KiB (2 KiB in the block family), boundary neighbourhoods + stride beyond; a dropped error in the middle of a merge that bufio's sticky error re-reports at Flush is not a violation and is not claimed.",
     },
     "C14": {
@@ -83,7 +83,7 @@ TEXT = {
     },
     "C19": {
         "technique": "storage fault injection enumerated exhaustively inside generated cases: all reads fail from the k-th on, for every k, on a freshly loaded file-backed segment",
-        "level_text": "Fault enumeration: for each generated file-backed segment and sequence of 3-10 read calls, the fault-free run counts the storage reads; then for every k the segment is loaded afresh and every ReadAt from the k-th on fails. Every call must return (watchdog with goroutine-dump confirmation of a mutex block inside ice), a call that saw a failing read must yield an error, an empty result or the correct result, a call that saw none must be correct, and nothing may panic. About 5*10^4 faulted calls per quick run.",
+        "level_text": "Fault enumeration: for each generated file-backed segment and sequence of 3-10 read calls, the fault-free run counts the storage reads; then for every k the segment is loaded afresh and every ReadAt from the k-th on fails. Every call must return (watchdog with goroutine-dump confirmation of a mutex block inside ice), a call that saw a failing read must yield an error, an empty result or the correct result; before the first failure calls must be correct, afterwards a call served from caches must be correct or report an error / empty result (never a different non-empty result); nothing may panic. About 5*10^4 faulted calls per quick run. Iterators are called again after they returned an error; a >1024-document family keeps one doc-value reader across chunk boundaries.",
         "level_note": "Depends on the layout of bluge_segment_api.Data (self-tested); for read sequences longer than 300 reads the first 120 and last 20 fault points are exhaustive and the middle is strided.",
     },
     "C09": {
